@@ -70,6 +70,10 @@ pub struct DirScript {
     /// first `argument` payload bytes
     #[serde(default)]
     pub ws_ops: Vec<(u64, u8, u64)>,
+    /// every connection after the first gets, in this direction, the bytes the *first* connection carried in this direction
+    /// (sent when its own first bytes arrive, cut at `cuts`); its own bytes are dropped
+    #[serde(default)]
+    pub splice_first_conn: bool,
     /// TLS carrier: the link node terminates TLS on both of its sockets (it holds the simulated certificate's key) and
     /// forwards the *plaintext* stream under this script; every forwarded piece is written and flushed on its own, i.e.
     /// travels as TLS record(s) of its own, so `cuts` are record boundaries as seen by the receiver's TLS layer
@@ -188,6 +192,26 @@ where
             let mut o = rec.lock().unwrap();
             let v = if is_c2s { &mut o.c2s } else { &mut o.s2c };
             v[conn].extend_from_slice(&buf[..n]);
+        }
+        if script.splice_first_conn && conn >= 1 {
+            if base == 0 {
+                let other = {
+                    let o = rec.lock().unwrap();
+                    if is_c2s { o.c2s[0].clone() } else { o.s2c[0].clone() }
+                };
+                let plain = DirScript { cuts: script.cuts.clone(), ..Default::default() };
+                let (pieces, _) = transform(&plain, 0, &other, &mut dup_buf);
+                for (p, gap) in pieces {
+                    if wr.write_all(&p).await.is_err() || wr.flush().await.is_err() {
+                        return 2;
+                    }
+                    if gap {
+                        tokio::time::sleep(Duration::from_millis(script.gap_ms.max(1))).await;
+                    }
+                }
+            }
+            base += n as u64;
+            continue;
         }
         if script.reflect {
             if let Some(tx) = back.as_mut() {
